@@ -3,3 +3,7 @@
 (declare-fun pkgpath (Int) Str)        ; import path of a *types.Package
 (declare-fun docContains (Int Str) Bool) ; asthelper.DocContains(file, s) as a function of the file and the string
 (declare-fun rt (Iface) Int)             ; run-time value (0 = nil) of an ssa.Value in the execution under consideration
+(declare-fun relOK (Str Str) Bool)       ; filepath.Rel(base, target) succeeds
+(declare-fun relPath (Str Str) Str)      ; its result when it does
+(declare-fun encOK (Iface) Bool)          ; objectpath.Encoder.For(obj) succeeds
+(declare-fun encPath (Iface) Str)         ; its result when it does
